@@ -28,10 +28,10 @@ func init() {
 			"half of the cases run every follower as a separate OS process and add real crash images: SIGKILL of a follower at an arbitrary instant, and a follower that kills itself at the n-th hit of an instrumented point of its flush / offset-file / apply protocol (tables with very different flush latencies, so the tables of a crash image are unevenly persisted), then restarts on the directory it left behind; " +
 			"after all faults are healed two rounds of barrier points establish convergence; then every table on every follower of partition p must decode to exactly the acknowledged ids routed to p (each once, none of another partition), redundant followers must be identical, and leader queries must equal a standalone database fed the same points; " +
 			"non-trivial = a fault hit while entries for that follower were submitted but not yet delivered or while it was down and missing batches; distinct by fault sequence",
-		Assumptions: []string{"in-process cases stop followers cleanly and copy directories only while the follower is stopped; process-mode cases produce crash images by real process kills (no power-loss model); leaders are restarted cleanly", "bounded progress: convergence is awaited for up to 180s, otherwise the case is inconclusive unless the leader-side queues are provably drained"},
+		Assumptions: []string{"in-process cases stop followers cleanly and copy directories only while the follower is stopped; process-mode cases produce crash images by real process kills (no power-loss model); leaders are restarted cleanly", "bounded progress: convergence is awaited for up to 180s; after that a loss is only declared once the leaders' follow pipelines have been completely idle for 45s and the barrier is still missing on a follower that has joined, anything else is inconclusive"},
 		Cases: func(tier string) int {
 			if tier == "quick" {
-				return 4
+				return 8
 			}
 			return 96
 		},
